@@ -718,6 +718,13 @@ def model_tie(res, tier, rng, jobs, fresh_res, hashseeds):
                                'encoding': job.get('encoding', 'utf-8')}},
                     found_input=True)
         n_in += 1
+        order_seen = cap.tr_order()
+        if order_seen and len(order_seen) >= 2:
+            res.count('tr-surf-set-order:' + (
+                'ascending' if order_seen == sorted(order_seen)
+                else 'NOT-ascending'))
+            if len(order_seen) > 5:
+                res.count('tr-surf-set:more-than-5-ids (table resized)')
         if expected is None:
             res.count('tie:outside-model')
             continue
